@@ -33,7 +33,7 @@ def make_collection(kind, mps, runtime=False):
         add(3, 0, bytes([6, 3, 0x09, 0x04, 0x07, 0x04]))   # language descriptor (two languages)
         add(3, 2, _blob(4, 5))
         add(3, 5, _blob(5, mps + 3))
-        add(15, 1, _blob(6, 3))
+        add(15, 1, _blob(6, 3 * mps))         # three packets exactly, length not a power of two
     elif kind == "dense":
         # consecutive indices only (no index map in the block ROM), includes type 0 and a 1-byte descriptor
         add(0, 0, _blob(7, 1))
